@@ -53,6 +53,14 @@ def random_pair(rng, size):
         if k == "VARIANT_CODING":
             e["criteria"] = ["crit1", "crit2"]
         b.append(e)
+    # B may contain names of the form X.MERGE itself (product of an earlier merge)
+    for e in list(b):
+        if e["kind"] not in gm.SINGLE_KINDS and e["kind"] not in ("USER_RIGHTS",) and rng.random() < 0.12:
+            ns = gm.NS_OF[e["kind"]]
+            n2 = e["name"] + rng.choice([".MERGE", ".MERGE2"])
+            if n2 not in names[ns]:
+                names[ns].add(n2)
+                b.append({"kind": e["kind"], "name": n2, "c": fresh_c(), "refs": {}})
     for e in b:
         for s in gm.SITES:
             if s[1] != e["kind"] or rng.random() < 0.45:
